@@ -19,6 +19,7 @@ import xarray as xr
 
 from soundevent.arrays.operations import adjust_dim_width, crop_dim, extend_dim
 from soundevent.arrays.operations import crop_dim_width, extend_dim_width
+from soundevent.arrays import get_coord_index
 
 from mc import bfs as B
 from mc.runner import Out
@@ -359,6 +360,21 @@ def step_fn(st, op, out):
         if not placed:
             out.klass = "%s:misplaced" % kind
             return None
+    # the result is an axis like any other: coordinate look-ups on it answer for ITS coordinates (half a step outside either end
+    # is outside, the end coordinates are the first and the last index), whatever the operation left in the attributes
+    if ks:
+        cr = r.coords["x"].data
+        stp = STEPS[st.init["step"]]
+        for v, want in ((float(cr[0]) - stp / 2, None), (float(cr[-1]) + stp / 2, None), (float(cr[0]), 0), (float(cr[-1]), len(ks) - 1)):
+            try:
+                gi = ("ok", int(get_coord_index(r, "x", v, raise_error=True)))
+            except (KeyError, ValueError) as e:
+                gi = ("raise", type(e).__name__)
+            except Exception as e:  # noqa
+                gi = ("crash", type(e).__name__)
+            okl = gi[0] == "raise" if want is None else gi == ("ok", want)
+            out.expect("lookup_on_result", okl, list(gi), "raises" if want is None else want,
+                       dict(cls, where="outside" if want is None else "end_coordinate"))
     # data stays on its coordinate; fill elsewhere
     got = values_of(r, st.init)
     newvals = {}
